@@ -33,7 +33,7 @@ def configs(tier, seed):
     for n in ((2, 3, 5) if tier == 'quick' else (2, 3, 5, 8)):
         for s in (True, False):
             out.append(dict(signed=s, n_word=n, n_frac=n // 2, shape=[2], mode='value'))
-            if tier == 'thorough':
+            if tier == 'thorough' or n == 3:
                 out.append(dict(signed=s, n_word=n, n_frac=0, shape=[2, 2], mode='value'))
     for n in ((64,) if tier == 'quick' else (64, 65, 100, 128)):
         for s in ((True, False) if tier == 'thorough' else (rng.choice((True, False)),)):
